@@ -13,6 +13,8 @@ package reorgdetector
 //@ ghost var lastDropFrom int
 //@ ghost var lastDropTo int
 //@ ghost var dropCalls int
+// rdFaults counts the steps of a detection pass that failed (a header fetch, the reorg-event insert, a row removal)
+//@ ghost var rdFaults int
 
 // the notification itself (proved): a known subscriber is sent exactly the reorged block's number on its ReorgedBlock
 // channel and the call returns only after one value has been received from its ReorgProcessed channel - no path returns
@@ -33,22 +35,25 @@ package reorgdetector
 // connection, is checked)
 //@ extern (*database/sql.DB).Exec@reorgdetector.(*ReorgDetector).removeTrackedBlockRange (d, query, args)
 //@   requires len(args) == 3 && typeIs(args[0], uint64) && typeIs(args[1], uint64) && typeIs(args[2], string)
-//@   modifies lastDropFrom, lastDropTo, dropCalls
+//@   modifies lastDropFrom, lastDropTo, dropCalls, rdFaults
 //@   ensures dropCalls == old(dropCalls) + 1 && lastDropFrom == unbox(args[0], uint64) && lastDropTo == unbox(args[1], uint64)
+//@   ensures rdFaults == old(rdFaults) + ite(result1 != nil, 1, 0)
 //@ func (rd *ReorgDetector) removeTrackedBlockRange (rd, id, fromBlock, toBlock)
 //@   props C06
 //@   sqltext "DELETE FROM tracked_block WHERE num >= $1 AND num <= $2 AND subscriber_id = $3;"
 //@   requires[range-dropped-only-after-the-subscriber-rewound] fromBlock == toBlock || (notifyCalls > 0 && lastNotified == fromBlock)
 //@   requires rd != nil
-//@   modifies lastDropFrom, lastDropTo, dropCalls
+//@   modifies lastDropFrom, lastDropTo, dropCalls, rdFaults
 //@   nocalls
 //@   allowcalls Exec
 //@   ensures dropCalls == old(dropCalls) + 1 && lastDropFrom == fromBlock && lastDropTo == toBlock
+//@   ensures[a-failed-removal-is-reported] rdFaults == old(rdFaults) + ite(result != nil, 1, 0)
 //@   assert call:Exec arg0 == rd.db && unbox(arg2[2], string) == id
 
 //@ func (rd *ReorgDetector) insertReorgEvent (rd, event)
 //@   trusted
-//@   modifies nothing
+//@   modifies rdFaults
+//@   ensures rdFaults == old(rdFaults) + ite(result != nil, 1, 0)
 
 //@ func (hl *headersList) getSorted (hl)
 //@   trusted
@@ -76,7 +81,8 @@ package reorgdetector
 //@ ghost var passHdrs []header
 //@ ghost var passLen int
 //@ interface github.com/agglayer/aggkit/types.BaseEthereumClienter.HeaderByNumber@reorgdetector.(*ReorgDetector).detectReorgInTrackedList$1 (self, ctx, number)
-//@   modifies nothing
+//@   modifies rdFaults
+//@   ensures rdFaults == old(rdFaults) + ite(result1 != nil, 1, 0)
 //@   ensures result1 != nil ==> result0 == nil
 //@   ensures result1 == nil ==> result0 != nil && result0 == chainHdrAt(bigval(number))
 //@ func (rd *ReorgDetector) detectReorgInTrackedList$1 ( | hdrs, headersCacheLock, headersCache, rd, ctx, lastFinalisedBlock, id, startTime)
@@ -88,7 +94,11 @@ package reorgdetector
 // (mentions the in-memory list's presence map before the loop, so that the loop frame knows the region removeRange writes)
 //@   requires hdrs.headers != nil && (has(hdrs.headers, 0) || !has(hdrs.headers, 0))
 //@   requires forall(n, int, headersCache[n] != nil ==> headersCache[n] == chainHdrAt(n))
-//@   modifies heap, notifyCalls, lastNotified, lastDropFrom, lastDropTo, dropCalls, passHdrs, passLen
+//@   modifies heap, notifyCalls, lastNotified, lastDropFrom, lastDropTo, dropCalls, passHdrs, passLen, rdFaults
+// a pass ends with an error exactly when one of its steps failed: a failed step is never swallowed (the rows would be
+// dropped from memory but not from the store, or the other way round), and a pass whose steps all succeeded is not
+// aborted (it would be aborted again on every tick and the subscriber never told)
+//@   ensures[error-exactly-when-a-step-failed] (result != nil) == (rdFaults > old(rdFaults))
 // detection proper: a subscriber is notified exactly for a tracked block whose stored hash differs from the hash of
 // the header the pass holds for that number, and a single row is dropped on its own only for a block whose hash still
 // matches and that is at or below the finalized block
@@ -102,6 +112,7 @@ package reorgdetector
 //@   loop 0 invariant forall(n, int, headersCache[n] != nil ==> headersCache[n] == chainHdrAt(n))
 //@   loop 0 modifies region("map[uint64]reorgdetector.header.has")
 //@   loop 0 invariant 0 <= rangeindex + 1 && rangeindex + 1 <= len(headers) && forall(k, 0, rangeindex + 1, headers[k].Hash == hdrHashOf(chainHdrAt(headers[k].Num)))
+//@   loop 0 invariant rdFaults == old(rdFaults)
 //@   loop 0 invariant notifyCalls == 0 && headersCache != nil && rd != nil && rd.client != nil && rd.log != nil && hdrs != nil && lastFinalisedBlock != nil && lastFinalisedBlock.Number != nil
 
 // the tracked blocks reloaded at start-up (C06): assumed semantics (A5), text pinned
